@@ -37,6 +37,8 @@ type Obligation struct {
 	NoMergeCalls bool   `json:"no_merge_calls"`
 	EagerIf    bool     `json:"eager_if"`
 	Replace    map[string]string `json:"replace"`
+	Threads    bool     `json:"threads"`
+	Preempt    int      `json:"preempt"`
 	MaxSteps   int      `json:"max_steps"`
 	Bound      string   `json:"bound"`
 	MaxViol    int      `json:"max_viol"`
@@ -128,6 +130,8 @@ func verifIsSymbolic(v uint64) bool
 func verifAnd(a, b bool) bool
 func verifQuick() bool
 func verifNative() bool
+func verifShared(p *uint64)
+func verifJoinAll()
 func verifSeed() uint64
 func verifOr(a, b bool) bool
 func verifIte(c bool, a, b uint64) uint64
@@ -181,6 +185,7 @@ var verifSeedVal uint64
 
 func verifQuick() bool                          { return verifQuickFlag }
 func verifNative() bool                         { return true }
+func verifShared(p *uint64)                     {}
 func verifSeed() uint64                         { return verifSeedVal }
 func verifOr(a, b bool) bool                    { return a || b }
 func verifIte(c bool, a, b uint64) uint64 {
@@ -397,6 +402,8 @@ func runTask(p *Program, t Task, base Config, wid int) (*Report, SolverStats, []
 	cfg.MergeIfs = !ob.NoMergeIfs
 	cfg.LazyIf = !ob.EagerIf
 	cfg.Replace = ob.Replace
+	cfg.Threads = ob.Threads
+	cfg.MaxPreempt = ob.Preempt
 	cfg.HarnessPkg = modPath + "/" + ob.Pkg
 	cfg.NoMerge = ob.NoMerge
 	if ob.Unwind > 0 {
